@@ -305,6 +305,9 @@ func files(seed uint64, n int, bin, tmp string) {
 			if media == "audio" && rng.Intn(3) > 0 {
 				r.HasStss, r.Stss = false, nil
 			}
+			if media == "audio" && rng.Intn(8) == 0 {
+				media = "subtitle" // neither "vide" nor "soun": never the reference track
+			}
 			ts := uint32(rng.Pick(1000, 600, 24, 90000, 48000, 12800))
 			tracks = append(tracks, &trackSpec{id: uint32(t + 1), timescale: ts, media: media, raw: r, edts: rng.Intn(3) == 0})
 			raws = append(raws, r)
@@ -312,12 +315,16 @@ func files(seed uint64, n int, bin, tmp string) {
 		// in half of the files the other tracks last at least as long as the first video (else first) track,
 		// so that the tool has something to crop in every track
 		if rng.Intn(5) > 0 {
-			r0 := 0
-			for i, t := range tracks {
-				if t.media == "video" {
-					r0 = i
-					break
+			r0 := -1
+			for _, m := range []string{"video", "audio"} {
+				for i, t := range tracks {
+					if t.media == m && r0 < 0 {
+						r0 = i
+					}
 				}
+			}
+			if r0 < 0 {
+				r0 = 0
 			}
 			x0 := tbl.Expand(raws[r0])
 			for i, t := range tracks {
@@ -367,12 +374,25 @@ func files(seed uint64, n int, bin, tmp string) {
 			panic(err)
 		}
 		// the reference track and its duration in ms
-		ref := tracks[0]
+		// the reference track: the first "vide" track, else the first "soun" track, else the tool must refuse
+		var ref *trackSpec
 		for _, t := range tracks {
 			if t.media == "video" {
 				ref = t
 				break
 			}
+		}
+		if ref == nil {
+			for _, t := range tracks {
+				if t.media == "audio" {
+					ref = t
+					break
+				}
+			}
+		}
+		noRef := ref == nil
+		if noRef {
+			ref = tracks[0]
 		}
 		xs := make([]*tbl.Ref, len(tracks))
 		for i, t := range tracks {
@@ -434,6 +454,10 @@ func files(seed uint64, n int, bin, tmp string) {
 				continue
 			}
 			st.ok++
+			if noRef {
+				fail("findEndTime", "no-reference-track", desc, "the tool succeeded although no track has handler vide or soun")
+				continue
+			}
 			checkOutput(tracks, xs, ref, refX, ms, data, outPath, desc)
 		}
 		_ = os.Remove(inPath)
